@@ -43,8 +43,11 @@ def corpus():
 def fresh(text, charset, exclude=None):
     env = dict(os.environ)
     env['PYTHONHASHSEED'] = str(random.randint(0, 1000))
-    p = subprocess.run([core.PY, '-W', 'ignore', os.path.join(core.VERIF, 'harness', 'docrun.py')],
-                       input=json.dumps({'text': text, 'charset': charset, 'exclude': exclude}).encode(), capture_output=True, timeout=300, env=env)
+    try:
+        p = subprocess.run([core.PY, '-W', 'ignore', os.path.join(core.VERIF, 'harness', 'docrun.py')],
+                           input=json.dumps({'text': text, 'charset': charset, 'exclude': exclude}).encode(), capture_output=True, timeout=300, env=env)
+    except subprocess.TimeoutExpired:
+        return {'verdict': 'subprocess-timeout'}
     try:
         return json.loads(p.stdout.decode())
     except Exception:  # noqa
